@@ -296,6 +296,32 @@ def run(tier="quick", seed=0):
                                  "script": mk_script(jobs, f, expected, "indexer")})
         if failures:
             break
+    # the logical combinators next to sibling conditions, exhaustively over a small grid ($or is a union whatever else the filter says and
+    # however many candidates are left, $and an intersection, $not a complement within the corpus)
+    grid = {f"j{a}{b}{c}": {"sp": {"a": a, "b": b, "c": c}} for a in (0, 1, 2) for b in (0, 1) for c in (0, 1)}
+    combos = []
+    for v in (0, 1):
+        for x in (0, 1, 2):
+            for y in (0, 1, 2):
+                combos.append({"sp.b": v, "$or": [{"sp.a": x}, {"sp.a": y}]})
+                combos.append({"sp.b": v, "$or": [{"sp.a": x}, {"sp.c": 1}, {"sp.a": y}]})
+                combos.append({"sp.c": v, "$and": [{"$or": [{"sp.a": x}, {"sp.a": y}]}, {"sp.b": 1}]})
+                combos.append({"sp.b": v, "$not": {"$or": [{"sp.a": x}, {"sp.a": y}]}})
+                combos.append({"$or": [{"sp.a": x, "sp.b": v}, {"sp.a": y, "sp.c": v}], "sp.c": 1})
+    gix = None
+    for f in combos:
+        expected = {k for k, j in grid.items() if matches(j, f)}
+        try:
+            if gix is None:
+                gix = _SearchIndexer(json.loads(json.dumps(grid)))
+            got = set(gix.find(json.loads(json.dumps(f))))
+        except Exception as e:
+            got = f"raised {type(e).__name__}: {e}"
+        evals += 1
+        if got != expected and len(failures) < 3:
+            failures.append({"key": "find:combinators:" + json.dumps(f, sort_keys=True)[:70],
+                             "description": f"_SearchIndexer.find on the 12-job grid a x b x c: filter {f}, got {got if isinstance(got, str) else sorted(got)}, expected {sorted(expected)}",
+                             "script": mk_script(grid, f, expected, "indexer")})
     # project-level wiring (namespaces, document inclusion) on real projects: fewer, slower
     nproj = 6 if tier == "quick" else 60
     for _ in range(nproj):
@@ -348,6 +374,6 @@ def run(tier="quick", seed=0):
     if set(ix.find({"sp.v": {"$type": "bool"}})) != {"a"}:
         failures.append({"key": "find:$type-bool-conflation", "description": "known finding F3", "script": ""})
     return {"scope": "corpora of 0-6 jobs over 16 typed values x 3 sp keys / 2 doc keys; random filters of the documented grammar to depth 3 "
-                     "(operators as suffix or nested mapping, sp./doc./no prefix); corpora that trigger known finding F3 and mappings that spell one key twice (b and sp.b) are excluded",
+                     "(operators as suffix or nested mapping, sp./doc./no prefix); 180 filters combining $or / $and / $not with sibling conditions on a 12-job grid; corpora that trigger known finding F3 and mappings that spell one key twice (b and sp.b) are excluded",
             "evaluations": evals, "distinct_nontrivial": len(distinct), "rule": "a case is one (corpus, filter) pair; non-trivial = the filter selects a non-empty proper subset; distinct by filter",
             "samples": samples, "failures": failures}
